@@ -5,7 +5,7 @@ d=$(mktemp -d /tmp/rf-XXXX); git -C /repo archive HEAD src Cargo.toml benches te
 (cd $d && git init -q . 2>/dev/null && git apply --whitespace=nowarn /verif/refactors/$n/patch.diff) || { echo "patch failed"; rm -rf $d; exit 3; }
 cd /verif
 for i in $(seq -w 1 20); do
-  out=$(BP_REPO=$d ./check C$i 2>&1); rc=$?
+  out=$(BP_EVIDENCE_DIR=$d/evidence BP_REPO=$d ./check C$i 2>&1); rc=$?
   if [ $rc -ne 0 ]; then echo "== C$i exit $rc"; echo "$out" | grep -E "rule=" | sort -u | cut -c1-${W:-200}; fi
 done
 rm -rf $d
